@@ -251,6 +251,45 @@ def check_minmax(rec, sub, fields, text, pp, finest):
             rec.fail("menu_minmax_values", dict(sub, field=f), "printed %r, header tables give %r" % (got, exp))
 
 
+def check_combination(rec, sub, fields, text, pp, db, mm, fl, has_var, every, description):
+    """every part that the options request is printed (the parts are cumulative): the table, the search result, the
+    description listing, or - when nothing else was asked - the plain listing"""
+    labels = []
+    for f in fields:
+        lab = category(f, db) or f
+        if lab not in labels:
+            labels.append(lab)
+    if mm or fl:
+        check_minmax(rec, sub, fields, text, pp, finest=fl)
+    if has_var:
+        m_ = re.search(r"Search results: (.*)", text)
+        for v in has_var:
+            want = "'%s' %s" % (v, "found" if v in labels else "not found")
+            if not m_ or want not in m_.group(1):
+                rec.fail("menu_search_result", dict(sub, searched=v), "expected %r in %r" % (want, m_.group(1) if m_ else None))
+    if description or every:
+        title = "All known fields:" if every else "Fields found in file:"
+        L = text.split("\n")
+        rows = None
+        for i, l in enumerate(L):
+            if title in l:
+                caps = [j for j in range(i, len(L)) if L[j].startswith("+")]
+                if len(caps) >= 3:
+                    rows = L[caps[1] + 1:caps[2]]
+                break
+        if rows is None:
+            rec.fail("menu_description_listing_missing", sub, "no %r table although it was requested" % title)
+        else:
+            names_ = [r_.split(" : ")[0].strip() for r_ in rows if " : " in r_]
+            if every:
+                names_ = [re.sub(r"\s+(Yes|No)$", "", n_) for n_ in names_ if re.search(r"\sYes$", n_)]
+            for lab in labels:
+                if names_.count(lab) != 1:
+                    rec.fail("menu_description_listing", dict(sub, field=lab), "%r appears %d times among the listed %r" % (lab, names_.count(lab), names_))
+    if not (mm or fl or has_var or description or every):
+        check_default(rec, sub, fields, text, db)
+
+
 MODES = [(False, False), (True, False), (False, True), (True, True)]
 
 
@@ -299,6 +338,25 @@ def run_case(case, workdir):
                 check_default(rec, sub, d["fields"], text, pristine)
             else:
                 check_minmax(rec, sub, d["fields"], text, pp, finest=fl)
+    # ---- every combination of the five options on the first plotfile (the printed parts are cumulative)
+    labs = [category(f, pristine) or f for f in desc["fields"]]
+    for hv in (None, [labs[0], "nope_zz"]):
+        for every in (False, True):
+            for description in (False, True):
+                for mm, fl in MODES:
+                    if hv is None and not every and not description:
+                        continue          # done above
+                    reset()
+                    from amr_kitchen.menu import Menu as _Menu
+                    with Captured() as c_:
+                        with vpool.controlled():
+                            st, val = call(lambda: _Menu(path, has_var=hv, every=every, description=description, min_max=mm, finest_lv=fl))
+                    sub = {"tool": "menu", "min_max": mm, "finest_lv": fl, "has_var": hv, "every": every, "description": description}
+                    rec.exe([dh, sub])
+                    if st == "exc":
+                        rec.fail("menu_raised", sub, exc_text(val))
+                        continue
+                    check_combination(rec, sub, desc["fields"], c_.text, pp, pristine, mm, fl, hv, every, description)
     # ---- histories of two menu calls in one process
     for (t1, p1), (t2, p2) in ((("A", path), ("B", path2)), (("B", path2), ("A", path))):
         for m1 in MODES:
@@ -395,6 +453,32 @@ def run_case(case, workdir):
                              "the second pickle does not hold the rewritten plotfile (time %r)" % up2.time)
         except Exception as e:
             rec.fail("marinate_unpickle", {}, exc_text(e))
+    # ---- marinate 'lnk/../name' where lnk is a symbolic link to a directory elsewhere: the plotfile is the one next to the
+    # link's TARGET (what the operating system and a fresh reader open), not the one of the same name next to the link
+    if ref2.ndims == 3:
+        from .. import audit
+        os.makedirs(os.path.join(workdir, "deep", "sub"))
+        os.symlink(os.path.join("deep", "sub"), os.path.join(workdir, "lnk"))
+        real, refr = build(dict(desc2, time=-9.5), os.path.join(workdir, "deep"), os.path.basename(path))
+        arg = os.path.join("lnk", "..", os.path.basename(path))
+        os.chdir(workdir)
+        with Captured(["marinate", arg]) as cL:
+            with vpool.controlled():
+                with audit.recording() as evL:
+                    stL, valL = call(marinate.main)
+        rec.exe([dh, "marinate_symlink_dotdot"])
+        pk = [p_ for e_, p_ in evL if e_ == "open_w" and p_.endswith(".pkl")]
+        if stL == "exc":
+            rec.fail("marinate_raised", {"argument": arg}, exc_text(valL))
+        elif len(pk) != 1:
+            rec.fail("marinate_pickle_count", {"argument": arg}, "%r" % pk)
+        else:
+            with open(pk[0], "rb") as f:
+                upL = pickle.load(f)
+            if list(upL.fields.keys()) != desc2["fields"] or not same_value(upL.time, -9.5):
+                rec.fail("marinate_wrong_plotfile", {"argument": arg}, "the pickle holds fields %r time %r; the plotfile at that path has %r, -9.5"
+                         % (list(upL.fields.keys()), upL.time, desc2["fields"]))
+            os.remove(pk[0])
     # ---- history: the second plotfile is read, rewritten IN PLACE (same names, other time and data), and read again
     def minute(pth):
         with Captured(["minuterie", pth]) as c_:
